@@ -65,7 +65,12 @@ func c14Run(tier string, seed int64, idx int) *core.Result {
 			baseline = n
 			res.StatMax("idle_goat_goroutines", int64(n))
 		}
-		reg := goat.VerifClientRegistrySize(cc)
+		reg, regOK := goat.VerifClientRegistrySizeTry(cc)
+		if !regOK {
+			// at a final state nobody can be running inside the multiplexer: the mutex is held by a blocked goroutine
+			res.ViolateD("client-multiplexer-wedged/"+what, map[string]any{"goroutines": goatParked(snap)}, "round %d: at a quiescent point the client multiplexer's mutex is held by a blocked goroutine (after %s)", round, what)
+			return false
+		}
 		res.Stat("sample_points", 1)
 		if len(seenOutcomes) == len(c14Outcomes)+1 {
 			res.Stat("sample_points_after_all_outcomes", 1)
